@@ -113,3 +113,66 @@ Qed.
 Theorem symbol_nul_refuted :
   exists b, fst (step init (OAddSym 0 b)) = 0 /\ getTerm (snd (step init (OAddSym 0 b))) 0 <> Ok (ASym b).
 Proof. exists [200; 0; 48]. split; [reflexivity|]. vm_compute. discriminate. Qed.
+
+(* ---------- re-defining an item of an earlier step with its OWN stored content ----------
+   td.addTerm(id, newName, td.getTerm(id).terms()), td.addTerm(id, td.getTerm(id).symbol()),
+   td.addElement(id, td.getElement(id).terms(), newCond): the argument is a VALUE - the content the store holds for id when
+   the call is made.  The item that comes back afterwards has exactly that content, every other item is untouched. *)
+Lemma nul_free_cut0 l : nul_free (cut0 l).
+Proof.
+  induction l as [|c r IH]; [constructor|]. cbn [cut0]. destruct (Z.eqb_spec c 0); [constructor|].
+  constructor; assumption.
+Qed.
+
+Lemma view_sym_nul_free h w b : view_word h w = Ok (ASym b) -> nul_free b.
+Proof.
+  unfold view_word. cbv zeta.
+  destruct (wtype w =? Theory_t_Number); [discriminate|].
+  destruct (wtype w =? Theory_t_Symbol).
+  - destruct (hfind h (getPtr w)) as [[b0| | |]|]; try discriminate. intro H. inversion H. apply nul_free_cut0.
+  - destruct (wtype w =? Theory_t_Compound); [|discriminate].
+    destruct (hfind h (getPtr w)) as [[| | |]|]; discriminate.
+Qed.
+
+Lemma readd_term s o id t : Inv s -> wf_op o -> s_step (abs s) o = s_add_term (abs s) id t -> isNewTerm s id = false ->
+  fst (step s o) = 0 /\ getTerm (snd (step s o)) id = Ok t /\ (forall j, j <> id -> getTerm (snd (step s o)) j = getTerm s j).
+Proof.
+  intros I W Eo Hn. destruct (step_refines s o I W) as [R1 [R2 [R3 _]]]. rewrite Eo in R1, R2.
+  unfold s_add_term in R1, R2. rewrite new_term_abs in R1, R2 by exact I. rewrite Hn in R1, R2. cbn [fst snd] in R1, R2.
+  split; [exact R1|]. destruct R2 as [QT _]. cbn [T] in QT.
+  split.
+  - rewrite (getTerm_abs _ id R3). change (vT (snd (step s o)) id) with (T (abs (snd (step s o))) id). rewrite QT. unfold upd. rewrite Z.eqb_refl. reflexivity.
+  - intros j Hj. rewrite (getTerm_abs _ j R3), (getTerm_abs _ j I).
+    change (vT (snd (step s o)) j) with (T (abs (snd (step s o))) j). rewrite QT. unfold upd.
+    destruct (Z.eqb_spec j id); [contradiction | reflexivity].
+Qed.
+
+Theorem redefine_own_content s id :
+  Inv s -> 0 <= id ->
+  (forall base args base', isNewTerm s id = false -> getTerm s id = Ok (AComp base args) ->
+     let s' := snd (step s (OAddComp id base' args)) in
+     fst (step s (OAddComp id base' args)) = 0 /\ getTerm s' id = Ok (AComp base' args) /\
+     (forall j, j <> id -> getTerm s' j = getTerm s j)) /\
+  (forall b, isNewTerm s id = false -> getTerm s id = Ok (ASym b) ->
+     let s' := snd (step s (OAddSym id b)) in
+     fst (step s (OAddSym id b)) = 0 /\ getTerm s' id = Ok (ASym b) /\
+     (forall j, j <> id -> getTerm s' j = getTerm s j)) /\
+  (forall ts c c', isNewElement s id = false -> getElement s id = Ok (mke ts c) ->
+     let s' := snd (step s (OAddElem id ts c')) in
+     fst (step s (OAddElem id ts c')) = 0 /\ getElement s' id = Ok (mke ts c') /\
+     (forall j, j <> id -> getElement s' j = getElement s j)).
+Proof.
+  intros I Hid. split; [|split].
+  - intros base args base' Hn _. cbv zeta. apply (readd_term s _ id (AComp base' args) I); [exact Hid | reflexivity | exact Hn].
+  - intros b Hn Hg. cbv zeta. apply (readd_term s _ id (ASym b) I); [|reflexivity|exact Hn].
+    split; [exact Hid|]. unfold getTerm in Hg. destruct (hasTerm s id); [|discriminate]. exact (view_sym_nul_free _ _ _ Hg).
+  - intros ts c c' Hn _. cbv zeta.
+    destruct (step_refines s (OAddElem id ts c') I Hid) as [R1 [R2 [R3 _]]].
+    cbn [s_step] in R1, R2. rewrite new_elem_abs in R1, R2 by exact I. rewrite Hn in R1, R2. cbn [fst snd] in R1, R2.
+    split; [exact R1|]. destruct R2 as [_ [_ [QE _]]]. cbn [E] in QE. split.
+    + rewrite (getElement_abs _ id R3). change (vE (snd (step s (OAddElem id ts c'))) id) with (E (abs (snd (step s (OAddElem id ts c')))) id).
+      rewrite QE. unfold upd. rewrite Z.eqb_refl. reflexivity.
+    + intros j Hj. rewrite (getElement_abs _ j R3), (getElement_abs _ j I).
+      change (vE (snd (step s (OAddElem id ts c'))) j) with (E (abs (snd (step s (OAddElem id ts c')))) j). rewrite QE. unfold upd.
+      destruct (Z.eqb_spec j id); [contradiction | reflexivity].
+Qed.
